@@ -313,6 +313,7 @@ fn assigned_vars(stmts: &[Stmt], out: &mut Vec<String>) {
 }
 
 const FIND_MARK: &str = "__find__";
+const RET_MARK: &str = "__retfold__";
 
 type K<'k> = &'k dyn Fn(String) -> R<String>;
 
@@ -1056,6 +1057,13 @@ impl<'a> Tr<'a> {
             // inside a searching `for`: the value found
             return Ok(format!("(some {})", v));
         }
+        if let Some((vars, _)) = self.folds.borrow().last() {
+            if !vars.is_empty() && vars[0] == RET_MARK {
+                // inside a `for` with state that can `return`: leave the fold with the value
+                return Ok(format!("(Sum.inr {})", v));
+            }
+            return Err("`return` inside a `for` that is translated as a plain fold is unsupported".into());
+        }
         if self.loops.borrow().is_empty() {
             Ok(v)
         } else {
@@ -1079,6 +1087,10 @@ impl<'a> Tr<'a> {
             if vars.len() == 1 && vars[0] == FIND_MARK {
                 // a searching `for` (`List.findSome?`): `continue` = nothing found at this element
                 return if is_break { Err("`break` inside a searching `for` is unsupported".into()) } else { Ok("none".into()) };
+            }
+            if !vars.is_empty() && vars[0] == RET_MARK {
+                // a `for` with state that can `return` (`foldlRet`): `continue` = go on with the current state
+                return if is_break { Err("`break` inside a returning `for` is unsupported".into()) } else { Ok(format!("(Sum.inl {})", self.tuple_of(&vars[1..]))) };
             }
             if *with_break {
                 // `foldlBrk`: `inl` goes on with the next element, `inr` leaves the loop
@@ -1293,6 +1305,44 @@ impl<'a> Tr<'a> {
                 let rest_code = self.stmts(rest, k)?;
                 let found = if nested { "(some ret_)" } else { "ret_" };
                 return Ok(format!("(match (List.findSome? (fun {} =>\n{}) {}) with\n| some ret_ => {}\n| none =>\n{})", it, body, iter, found, rest_code));
+            }
+        }
+        // a `for` WITH STATE that can `return` (no `break` of its own, no loop nested in its body, not inside an `iterFuel` loop):
+        // `foldlRet` - `inl state` goes on, `inr value` leaves the function
+        {
+            struct RV(bool, bool);
+            impl<'ast> visit::Visit<'ast> for RV {
+                fn visit_expr_return(&mut self, _: &'ast ExprReturn) { self.0 = true; }
+                fn visit_expr_break(&mut self, _: &'ast ExprBreak) { self.1 = true; }
+                fn visit_expr_loop(&mut self, _: &'ast ExprLoop) { self.1 = true; }
+                fn visit_expr_while(&mut self, _: &'ast ExprWhile) { self.1 = true; }
+                fn visit_expr_for_loop(&mut self, _: &'ast ExprForLoop) { self.1 = true; }
+                fn visit_expr_closure(&mut self, _: &'ast ExprClosure) {}
+            }
+            let mut rv = RV(false, false);
+            visit::Visit::visit_block(&mut rv, &f.body);
+            let mut vars = vec![];
+            assigned_vars(&f.body.stmts, &mut vars);
+            if rv.0 && !rv.1 && !vars.is_empty() && self.cfg.self_fields.is_empty() && self.loops.borrow().is_empty() && self.folds.borrow().is_empty() {
+                let iter = self.iter_expr(&f.expr)?;
+                self.ctr.set(self.ctr.get() + 1);
+                let n = self.ctr.get();
+                let st = format!("st_{}", n);
+                let it = format!("it_{}", n);
+                let mut body = String::new();
+                self.rebind_from(&vars, &st, &mut body);
+                self.bind_pat(&f.pat, &it, &mut body)?;
+                let tuple = self.tuple_of(&vars);
+                let mut marked = vec![RET_MARK.to_string()];
+                marked.extend(vars.iter().cloned());
+                self.folds.borrow_mut().push((marked, false));
+                let body_code = self.stmts(&f.body.stmts, &|_| Ok(format!("(Sum.inl {})", tuple)));
+                self.folds.borrow_mut().pop();
+                body.push_str(&body_code?);
+                let mut after = String::new();
+                self.rebind_from(&vars, "fin_", &mut after);
+                after.push_str(&self.stmts(rest, k)?);
+                return Ok(format!("(match (foldlRet {} {} (fun {} {} =>\n{})) with\n| Sum.inr ret_ => ret_\n| Sum.inl fin_ =>\n{})", iter, tuple, st, it, body, after));
             }
         }
         if j.0 && !with_break {
